@@ -407,7 +407,9 @@ func (e *Exec) binop(op token.Token, a, b Value, rt types.Type) Value {
 	case isString(a.T):
 		switch op {
 		case token.ADD:
-			return Value{T: rt, S: []string{"(strcat " + a.S[0] + " " + b.S[0] + ")"}}
+			r := "(strcat " + a.S[0] + " " + b.S[0] + ")"
+			e.assume("(= (strlen " + r + ") (+ (strlen " + a.S[0] + ") (strlen " + b.S[0] + ")))")
+			return Value{T: rt, S: []string{r}}
 		case token.EQL:
 			return Value{T: rt, S: []string{"(= " + a.S[0] + " " + b.S[0] + ")"}}
 		case token.NEQ:
